@@ -152,6 +152,9 @@ class Tracker:
             # Advection
             if self.vertical_advection:
                 W = force.variables["w"]
+                # Backwards in time the flow is reversed, vertically as well
+                if getattr(self.modules["time"], "time_reversal", False):
+                    W = -W
                 Z += W * self.dt
 
             # Reflexive boundary conditions at surface
